@@ -12,7 +12,10 @@ CLAIM = (
     "(&&, ||, !), transform_implication negates the antecedent and joins the un-negated consequent with ||, add/sub emit + and -; "
     "(3) every Transpiler implements every node kind; (4) JSON names come from one place: every jsonization generator takes property "
     "names from naming.json_property and model types from naming.json_model_type, the XML generators from naming.xml_property / "
-    "naming.xml_class_name; (5) invariant descriptions pass through wrap_text_into_lines and the target's string_literal."
+    "naming.xml_class_name; (5) invariant descriptions pass through wrap_text_into_lines and the target's string_literal; (6) JOINED: in each "
+    "transform_joined_str the literal parts of a formatted string reach the output through the target's literal function exactly once, and "
+    "the escaping required by the target's interpolation syntax (doubled braces for Python f-strings and C# `$\"`, `${` for TypeScript "
+    "templates, %% for Go's Sprintf, none for the concatenating Java and C++) is applied to them and nowhere else."
 )
 NOTE = (
     "Trusted base: operator oracle table; identification of the transpiled operands by the names bound from self.transform(node.<field>). "
@@ -43,6 +46,9 @@ def run(ctx) -> None:
                     transp.check_reflow(ctx, f, "REFLOW")
         _check_description_flow(ctx, t, "DESC")
     _check_names(ctx)
+    ctx.rule("JOINED", "formatted strings: literal parts escaped exactly once, interpolation-specific escaping only where the target needs it (six targets)", floor=10)
+    for t in JOINED_TABLE:
+        _check_joined_str(ctx, t)
 
 
 def _check_names(ctx) -> None:
@@ -74,3 +80,127 @@ def _check_names(ctx) -> None:
                     a = js.args[0]
                     if isinstance(a, ast.Attribute) and a.attr == "name" and dotted_of(a.value) in ("prop", "cls", "our_type"):
                         ctx.fail("NAMES", f, js, f"`{short(js)}` emits the raw meta-model name as a serialized name instead of naming.{fns[0]}(...)", construct=f"{t}: raw name {short(a)}")
+
+
+JOINED_TABLE = {
+    # target: (literal function suffixes, required keyword on the literal parts of the INTERPOLATED form, text ops allowed on the raw part)
+    "python": (("string_literal",), {"duplicate_curly_brackets": True}, ()),
+    "typescript": (("string_literal",), {"in_backticks": True}, ()),
+    "csharp": (("string_literal",), {}, ("{{", "}}")),
+    "java": (("string_literal",), {}, ()),
+    "golang": (("string_literal",), {}, ("%%",)),
+    "cpp": (("wstring_literal", "string_literal"), {}, ()),
+}
+
+
+def _check_joined_str(ctx, t: str) -> None:
+    """Formatted strings (f-strings of the meta-model): per target, (a) every literal part reaches the output through the
+    target's literal function exactly once (escaped zero times: quotes break the literal; twice: the escapes become part
+    of the text); (b) the escaping that the target's interpolation syntax needs is applied to the literal parts of the
+    interpolated form and nowhere else (python: doubled braces via duplicate_curly_brackets, TypeScript: in_backticks,
+    C#: doubled braces only under `$"`, Go: %% for Sprintf, Java / C++: none, the parts are concatenated)."""
+    p = ctx.p
+    f = p.func(f"{t}.transpilation:Transpiler.transform_joined_str")
+    lits, need_kw, allowed_ops = JOINED_TABLE[t]
+    from ..rules import schema as S
+
+    parents = S.parents_of(f)
+    # the loop variable over node.values
+    loops = [n for n in ast.walk(f.node) if isinstance(n, ast.For) and dotted_of(n.iter) == "node.values" and isinstance(n.target, ast.Name)]
+    ctx.require_anchor(len(loops) >= 1, f"{t}: transform_joined_str loops over node.values")
+    lv = loops[0].target.id
+
+    def is_lit(call: ast.Call) -> bool:
+        return (dotted_of(call.func) or "").split(".")[-1] in lits and (dotted_of(call.func) or "").startswith(f"{t}_common.")
+
+    level = {lv: 0}
+
+    def lvl(e: ast.AST):
+        if isinstance(e, ast.Name):
+            return level.get(e.id)
+        if isinstance(e, ast.Call):
+            if is_lit(e) and e.args:
+                a = lvl(e.args[0])
+                return None if a is None else a + 1
+            if isinstance(e.func, ast.Attribute) and e.func.attr in ("replace", "join", "strip", "format"):
+                base = lvl(e.func.value)
+                argl = [lvl(a) for a in e.args]
+                cand = [x for x in [base] + argl if x is not None]
+                return max(cand) if cand else None
+            if dotted_of(e.func) in ("Stripped", "str") and e.args:
+                return lvl(e.args[0])
+            return None
+        if isinstance(e, ast.Subscript):
+            return lvl(e.value)
+        if isinstance(e, ast.IfExp):
+            cand = [x for x in (lvl(e.body), lvl(e.orelse)) if x is not None]
+            return max(cand) if cand else None
+        if isinstance(e, ast.JoinedStr):
+            cand = [lvl(v.value) for v in e.values if isinstance(v, ast.FormattedValue)]
+            cand = [x for x in cand if x is not None]
+            return max(cand) if cand else None
+        if isinstance(e, (ast.GeneratorExp, ast.ListComp)):
+            return lvl(e.elt)
+        return None
+
+    # the literal-part arm only: statements under `isinstance(<lv>, str)`, plus everything after the loop
+    for _ in range(4):
+        for n in ast.walk(f.node):
+            if isinstance(n, ast.Assign) and len(n.targets) == 1 and isinstance(n.targets[0], ast.Name):
+                in_fv_arm = any("FormattedValue" in ast.unparse(tst) and pol for tst, pol in S.guards_of(n, parents))
+                if in_fv_arm:
+                    continue
+                v = lvl(n.value)
+                if v is not None:
+                    level[n.targets[0].id] = max(level.get(n.targets[0].id, 0), v)
+            if isinstance(n, ast.Call) and isinstance(n.func, ast.Attribute) and n.func.attr in ("append", "extend") and isinstance(n.func.value, ast.Name) and n.args:
+                in_fv_arm = any("FormattedValue" in ast.unparse(tst) and pol for tst, pol in S.guards_of(n, parents))
+                if in_fv_arm:
+                    continue
+                v = lvl(n.args[0])
+                if v is not None:
+                    level[n.func.value.id] = max(level.get(n.func.value.id, 0), v)
+            if isinstance(n, ast.For) and isinstance(n.target, ast.Name) and isinstance(n.iter, ast.Name) and n.iter.id in level:
+                level[n.target.id] = level[n.iter.id]
+    # no literal function is applied to text that already went through one
+    what = f"{t}: literal parts of a formatted string pass through the literal function exactly once"
+    twice = [c for c in ast.walk(f.node) if isinstance(c, ast.Call) and is_lit(c) and c.args and (lvl(c.args[0]) or 0) >= 1]
+    if twice:
+        ctx.fail("JOINED", f, twice[0], f"{t}: `{short(twice[0])}` converts text to a string literal that already contains the output of the literal function: quotes, backslashes and control characters of the literal parts are escaped twice and the escapes become part of the text", construct=what)
+    else:
+        ctx.ok("JOINED", f, f.node, what=what)
+    # interpolation-specific escaping on the literal parts
+    lit_calls = [c for c in ast.walk(f.node) if isinstance(c, ast.Call) and is_lit(c) and c.args and lvl(c.args[0]) == 0
+                 and not any("FormattedValue" in ast.unparse(tst) and pol for tst, pol in S.guards_of(c, parents))]
+    ctx.require_anchor(len(lit_calls) >= 1, f"{t}: a literal call on the raw literal part")
+    all_reps = []
+    for x in ast.walk(f.node):
+        if isinstance(x, ast.Call) and isinstance(x.func, ast.Attribute) and x.func.attr == "replace" and len(x.args) == 2 and isinstance(x.args[1], ast.Constant) \
+                and lv in {y.id for y in ast.walk(x.func.value) if isinstance(y, ast.Name)}:
+            all_reps.append((x, x.args[1].value))
+    for c in lit_calls:
+        kws = {k.arg: (k.value.value if isinstance(k.value, ast.Constant) else None) for k in c.keywords}
+        in_loop = any(c is x for lp in loops for x in ast.walk(lp))
+        for k, v in (need_kw.items() if in_loop else ()):
+            what2 = f"{t}: literal parts of the interpolated form are escaped for the interpolation syntax ({k}={v})"
+            if kws.get(k) == v:
+                ctx.ok("JOINED", f, c, what=what2)
+            else:
+                ctx.fail("JOINED", f, c, f"{t}: `{short(c)}` does not pass {k}={v}: characters that are syntax inside the interpolated string (braces / `${{`) stay raw and change the text or the interpolation", construct=what2)
+        interpolated_arm = len(lit_calls) == 1 or not any("needs_interpolation" in ast.unparse(tst) and not pol or ("all(" in ast.unparse(tst) and pol) for tst, pol in S.guards_of(c, parents) + S.early_exit_guards(c, f, parents))
+        reps = list(all_reps) if c is lit_calls[-1] else []
+        what3 = f"{t}: text replacements on the literal part are exactly {list(allowed_ops) or 'none'}"
+        got = sorted(r for _, r in reps)
+        if c is not lit_calls[-1]:
+            continue
+        if got != sorted(allowed_ops):
+            ctx.fail("JOINED", f, c, f"{t}: the literal part is rewritten with {got or 'nothing'} before it is escaped; the {t} form of a formatted string needs {list(allowed_ops) or 'no rewriting'}: the text of the string differs from Python's", construct=what3)
+            continue
+        if t == "csharp" and reps:
+            # brace doubling only when the emitted string is interpolated
+            cond = all(any(isinstance(a, ast.IfExp) and "needs_interpolation" in ast.unparse(a.test) and any(y is rx for y in ast.walk(a.body)) for a in ast.walk(f.node))
+                       or any("needs_interpolation" in ast.unparse(tst) and pol for tst, pol in S.guards_of(rx, parents)) for rx, _ in reps)
+            if not cond:
+                ctx.fail("JOINED", f, c, "csharp: the braces of a literal part are doubled also when the emitted string is a plain, non-interpolated literal: `{x}` becomes `{{x}}`", construct="csharp: brace doubling only under $\"")
+                continue
+        ctx.ok("JOINED", f, c, what=what3)
